@@ -33,6 +33,8 @@ type C09Case struct {
 	// Consts (arity family): 0 every operand a variable, 1 every operand a constant (neutral for the
 	// operator), 2 constants followed by one variable, 3 one variable followed by constants
 	Consts int `json:"consts,omitempty"`
+	// Infix: the program is written in infix notation (calls as name(a, b, ...)).
+	Infix bool `json:"infix,omitempty"`
 	// Chan: the program is compiled without events, yet the caller attaches a channel to Expr.EventChan
 	// (an application that wires its channel to every expression); nothing is ever sent on it
 	Chan bool `json:"chan,omitempty"`
@@ -336,6 +338,30 @@ func stackShape(shape, need int) *m.Node {
 
 func (c C09Case) tree() *m.Node {
 	switch c.Kind {
+	case "argwide":
+		// a wide call that is the LAST argument of another call (operands of the enclosing call are
+		// pending while it is parsed), 1..3 levels: outer(q, ..., inner(<N operands>))
+		inner := wide(c.Op, c.N)
+		for lvl := 0; lvl < 1+c.Groups%3; lvl++ {
+			outer := "sub"
+			if isBoolish(c.Op) {
+				outer = "xor"
+			}
+			node := m.Op(outer)
+			for k := 0; k < 1+c.Shape%40; k++ {
+				node.Kids = append(node.Kids, leafFor(c.Op, k))
+			}
+			node.Kids = append(node.Kids, inner)
+			inner = node
+		}
+		return inner
+	case "biglist":
+		// a three-node program whose list literal has N elements
+		l := make([]int64, c.N)
+		for k := range l {
+			l[k] = int64(k)
+		}
+		return m.Op("in", m.Var("q1"), m.Const(l))
 	case "arity":
 		if c.Consts != 0 {
 			return wideConsts(c.Op, c.N, c.Consts)
@@ -462,7 +488,14 @@ func isAndCase(c C09Case) bool { return !m.IsOr(c.Op) }
 
 func genC09(t *rapid.T) C09Case {
 	c := C09Case{Mask: rapid.IntRange(0, 15).Draw(t, "mask"), Events: rapid.IntRange(0, 2).Draw(t, "events"), Reach: rapid.Bool().Draw(t, "reach")}
-	switch pickW(t, "kind", 3, 2, 1, 6, 1) {
+	switch pickW(t, "kind", 3, 2, 1, 6, 1, 2, 1) {
+	case 5:
+		c.Kind, c.Op, c.N = "argwide", rapid.SampledFrom([]string{"add", "mul", "and", "or", "eq", "c_sum", "sub"}).Draw(t, "op"), rapid.IntRange(100, 130).Draw(t, "n")
+		c.Groups, c.Shape = rapid.IntRange(0, 2).Draw(t, "levels"), rapid.IntRange(0, 39).Draw(t, "pending")
+		c.Infix = rapid.Bool().Draw(t, "infix")
+	case 6:
+		c.Kind, c.N = "biglist", rapid.SampledFrom([]int{1000, 32767, 32768, 65536, 100000, 131072}).Draw(t, "listlen")
+		c.Infix = rapid.Bool().Draw(t, "infix")
 	case 4:
 		c.Kind = "deep"
 		c.N = rapid.SampledFrom([]int{255, 257, 4095, 4097, 8191, 8193, 16381, 16383, 16385, 16387, 20001, 21843, 21845}).Draw(t, "deepneed")
@@ -503,6 +536,9 @@ func checkC09(c C09Case, r *Rec) *Violation {
 	tree := c.tree()
 	u := c.universe()
 	src := m.Render(tree)
+	if c.Infix {
+		src = m.RenderInfix(tree, m.InfixOpts{})
+	}
 	opt := tree
 	if c.Mask&MaskNest != 0 {
 		opt = flattenModel(tree)
@@ -526,7 +562,7 @@ func checkC09(c C09Case, r *Rec) *Violation {
 	}
 
 	log := &Log{}
-	cc, _ := NewConfig(u, log, Build{Mask: c.Mask, Events: c.Events})
+	cc, _ := NewConfig(u, log, Build{Mask: c.Mask, Events: c.Events, Infix: c.Infix})
 	e, co := SafeCompile(cc, src)
 	if co.Panic != nil {
 		return Violf("C09: Compile panics instead of enforcing a limit: %v\n%s", co, where())
@@ -702,6 +738,27 @@ func sweepC09(tier string, shard, shards int, emit func(C09Case)) {
 			}
 		}
 	}
+	// a wide call as the last argument of other calls, both notations; huge list literals
+	for _, op := range []string{"add", "and", "c_sum"} {
+		for _, n := range []int{100, 126, 127, 128} {
+			for _, infix := range []bool{false, true} {
+				for lv := 0; lv < 3; lv++ {
+					if !thorough && lv == 1 {
+						continue
+					}
+					send(C09Case{Kind: "argwide", Op: op, N: n, Groups: lv, Shape: 29 * lv, Infix: infix, Mask: masks[(n+lv)%len(masks)], Events: (n + lv) % 3, Reach: true})
+				}
+			}
+		}
+	}
+	for _, n := range []int{32768, 100000, 140000} {
+		if !thorough && n == 140000 {
+			continue
+		}
+		for _, infix := range []bool{false, true} {
+			send(C09Case{Kind: "biglist", N: n, Infix: infix, Mask: masks[n%len(masks)], Events: n % 2, Reach: true})
+		}
+	}
 	// flattening crosses 127
 	for _, pair := range [][2]string{{"and", "and"}, {"and", "&&"}, {"or", "||"}, {"and", "or"}, {"|", "or"}} {
 		for _, groups := range []int{2, 3, 5} {
@@ -757,7 +814,7 @@ func sweepC09(tier string, shard, shards int, emit func(C09Case)) {
 
 var propC09 = Prop[C09Case]{
 	ID:    "C09",
-	Rule:  "constructed boundary programs: (arity) every n-ary operator and alias with 120..135 operands - variables, neutral constants, constants then a variable, a variable then constants; (flatten) and/or whose operand count crosses 127 only after ReduceNesting merges 2..6 inner operators, same and different operator kinds; (nodes; also with leaves replaced by ifs, by two-leaf operators, and by ifs over two-leaf operators) programs of exactly N nodes for N within +-3 of 16383, 16384 and 32767 (and 8192, 10922) built from <=127-ary layers of + or alternating and/or over variables; (stack) six nesting shapes (right-nested arithmetic, alternating and/or, wide-then-deep, if chains, comparison under and, deep-first) for every operand-stack requirement 1..24; x optimization subsets x {no events, ReportEvent, Debug} x bindings that reach the deepest point / short-circuit at once; programs compiled without events sometimes get a channel attached to Expr.EventChan all the same. Oracle: Compile returns exactly one of program/error, never panics; it rejects iff the harness's own count on the optimized shape exceeds a limit (operands > 127, nodes > 32767, nodes incl. event nodes > 32767); compiled programs have exactly the counted number of nodes (hook), a stack bound >= the slots the evaluation needs (hook), and Eval and TryEval return R's value. Non-trivial = a size parameter within +-2 of 127 / 16383 / 32767 or a stack requirement within +-2 of 8 / 16; distinct by parameters. The sweep part is an exhaustive grid (reduced in quick)",
+	Rule:  "constructed boundary programs: (argwide) a 100..130-operand call as the last argument of 1..3 enclosing calls with up to 40 pending operands, prefix and infix; (biglist) three-node programs over list literals of up to 140 000 elements; (arity) every n-ary operator and alias with 120..135 operands - variables, neutral constants, constants then a variable, a variable then constants; (flatten) and/or whose operand count crosses 127 only after ReduceNesting merges 2..6 inner operators, same and different operator kinds; (nodes; also with leaves replaced by ifs, by two-leaf operators, and by ifs over two-leaf operators) programs of exactly N nodes for N within +-3 of 16383, 16384 and 32767 (and 8192, 10922) built from <=127-ary layers of + or alternating and/or over variables; (stack) six nesting shapes (right-nested arithmetic, alternating and/or, wide-then-deep, if chains, comparison under and, deep-first) for every operand-stack requirement 1..24; x optimization subsets x {no events, ReportEvent, Debug} x bindings that reach the deepest point / short-circuit at once; programs compiled without events sometimes get a channel attached to Expr.EventChan all the same. Oracle: Compile returns exactly one of program/error, never panics; it rejects iff the harness's own count on the optimized shape exceeds a limit (operands > 127, nodes > 32767, nodes incl. event nodes > 32767); compiled programs have exactly the counted number of nodes (hook), a stack bound >= the slots the evaluation needs (hook), and Eval and TryEval return R's value. Non-trivial = a size parameter within +-2 of 127 / 16383 / 32767 or a stack requirement within +-2 of 8 / 16; distinct by parameters. The sweep part is an exhaustive grid (reduced in quick)",
 	Gen:   genC09,
 	Check: checkC09,
 	Sweep: sweepC09,
